@@ -373,6 +373,7 @@ func (c *Checker) funcOfParam(v ssa.Value) (*ssa.Function, map[string]string) {
 // boolean) or `call == nil` / `call != nil` on an error-returning call (want = nil-ness).
 func (c *Checker) helperCall(v ssa.Value) (call *ssa.Call, isErr bool, pol bool) {
 	v, pol = stripNot(v)
+	v = term.StoredValue(v)
 	c.boolIdx = 0
 	if cl, ok := v.(*ssa.Call); ok && isBool(cl) {
 		return cl, false, pol
@@ -391,6 +392,7 @@ func (c *Checker) helperCall(v ssa.Value) (call *ssa.Call, isErr bool, pol bool)
 		var cl *ssa.Call
 		isErrVal := false
 		asErrCall := func(v ssa.Value) *ssa.Call {
+			v = term.StoredValue(v)
 			if x, ok := v.(*ssa.Call); ok && x.Type().String() == "error" {
 				return x
 			}
